@@ -273,8 +273,10 @@ class Gen:
             return callall(self.vfn(d - 1, scope))
         if w < 0.95 and ty == "any":
             return self.def_(d, scope)
-        if w < 0.98:
+        if w < 0.965:
             return self.letfn_(ty, d, scope)
+        if w < 0.985 and ty == "any":
+            return self.capture_(d, scope)
         if ty == "any":
             return vec(*[sub("any") for _ in range(r.randint(0, 3))])
         return self.leaf(ty, scope)
@@ -377,6 +379,43 @@ class Gen:
                             recur(prim("inc", l(i)), prim("conj", l(acc), made))),
                         l(acc)))
 
+    def capture_(self, d, scope):
+        """closures that must keep the bindings in effect when they were created, in the places where a compiler
+        that maps locals to mutable variables can get it wrong: a name bound twice in one let, a local shadowed
+        by a nested let, a closure over a loop local that is called in a later recur argument / after the loop"""
+        r = self.r
+        x, f, n, b = r.sample(LOCALS, 4)
+        sc = [(a, t) for a, t in scope if a not in (x, f, n, b)]
+        e1 = self.expr("int", max(0, d - 2), sc)
+        e2 = self.expr("int", max(0, d - 2), sc + [(x, "int")])
+        k = r.randint(1, 3)
+        w = r.randrange(6)
+        if w == 0:      # (let [x e1 f (fn [] x) x e2] [(f) x])
+            return let([(x, e1), (f, fn([], l(x))), (x, e2)], vec(call(l(f)), l(x)))
+        if w == 1:      # shadowing by a nested let
+            return let([(x, e1), (f, fn([], l(x)))], let([(x, e2)], vec(call(l(f)), l(x))))
+        if w == 2:      # closure over a loop local called in a later recur argument
+            return loop([(x, c(I(0))), (b, c(NIL)), (n, c(I(0)))],
+                        let([(f, fn([], l(x)))],
+                            if_(prim("lt", l(n), c(I(k))),
+                                recur(prim("inc", l(x)), call(l(f)), prim("inc", l(n))),
+                                vec(l(x), l(b)))))
+        if w == 3:      # the same through letfn, collecting
+            return loop([(x, c(I(1))), (b, vec()), (n, c(I(0)))],
+                        letfn([(f, [], [l(x)])],
+                              if_(prim("lt", l(n), c(I(k))),
+                                  recur(prim("add", l(x), l(x)), prim("conj", l(b), call(l(f))), prim("inc", l(n))),
+                                  l(b))))
+        if w == 4:      # swap: both new values come from the old bindings
+            return loop([(x, e1), (b, c(I(7))), (n, c(I(0)))],
+                        if_(prim("lt", l(n), c(I(k))), recur(l(b), l(x), prim("inc", l(n))), vec(l(x), l(b))))
+        # fn parameter rebound by recur while an earlier closure is still around
+        return call(fn([x, b, n], let([(f, fn([], l(x)))],
+                                      if_(prim("lt", l(n), c(I(k))),
+                                          recur(prim("inc", l(x)), prim("conj", l(b), l(f)), prim("inc", l(n))),
+                                          callall(l(b))))),
+                    c(I(0)), vec(), c(I(0)))
+
     def loop_(self, ty, d, scope):
         r = self.r
         i = self.name(scope)
@@ -424,6 +463,15 @@ class Gen:
                       (f2, ["k"], [if_(prim("lt", l("k"), c(I(1))), self.expr(ty, d - 2, sc + [("k", "int")]),
                                        call(l(f1), prim("dec", l("k"))))])],
                      call(l(f1), c(I(r.randint(0, 3)))))
+
+
+def capture_programs(rnd, n):
+    """n programs from the capture family alone (every run of the corpus contains them)"""
+    out = []
+    for _ in range(n):
+        gobj = Gen(rnd)
+        out.append(gobj.capture_(3, []))
+    return out
 
 
 def random_program(rnd, depth):
